@@ -10,6 +10,8 @@ use hclient::{name_ok, sha256_hex, Ids, Scratch};
 use hutil::{Args, Rng, Sink};
 use mithril_cardano_node_internal_database::entities::AncillaryFilesManifest;
 use mithril_client::cardano_database_client::{DownloadUnpackOptions, ImmutableFileRange};
+use mithril_client::feedback::FeedbackSender;
+use mithril_client::file_downloader::{FileDownloadRetryPolicy, HttpFileDownloader, RetryDownloader};
 use mithril_client::{CardanoDatabaseSnapshot, Client, ClientBuilder};
 use mithril_common::crypto_helper::{ManifestSigner, ManifestVerifier};
 use mithril_common::entities::{
@@ -169,13 +171,14 @@ fn write_archive(path: &Path, loc: &Loc) {
         h.set_cksum();
         b.append(&h, data).unwrap();
     }
-    let mut enc = b.into_inner().unwrap_or_else(|_| panic!("tar"));
     if !loc.intact {
-        // a block that is no header: the tar stream breaks here, the zstd stream stays valid
+        // a block that is no header, before the end-of-archive marker: the tar stream breaks here,
+        // the zstd stream stays valid
         use std::io::Write;
-        enc.write_all(&[0xffu8; 512]).unwrap();
-        enc.write_all(&[0x41u8; 512]).unwrap();
+        b.get_mut().write_all(&[0xffu8; 512]).unwrap();
+        b.get_mut().write_all(&[0x41u8; 512]).unwrap();
     }
+    let enc = b.into_inner().unwrap_or_else(|_| panic!("tar"));
     enc.finish().unwrap();
 }
 
@@ -452,8 +455,54 @@ fn spec(case: &Case, ok: bool, pre: &BTreeMap<String, Node>, post: &BTreeMap<Str
             }
         }
     }
+    // a legitimate path may resolve elsewhere through links that were there BEFORE the call (the user's
+    // own layout): the node it resolves to is then as legitimate as the path
+    let root_canon = std::fs::canonicalize(root).unwrap();
+    let through_pre_links = |logical: &str| -> Option<String> {
+        // every link met on the way must be a pre-existing one
+        let mut cur = String::new();
+        for c in logical.split('/') {
+            cur = if cur.is_empty() { c.to_string() } else { format!("{}/{}", cur, c) };
+            if let Some(Node::Link(_)) = post.get(&cur) {
+                if pre.get(&cur) != post.get(&cur) {
+                    return None;
+                }
+                break; // below a link the listing uses the resolved place
+            }
+        }
+        let canon = std::fs::canonicalize(root.join(logical)).ok()?;
+        canon.strip_prefix(&root_canon).ok().map(|r| r.to_string_lossy().to_string())
+    };
+    let mut allowed_elsewhere: BTreeSet<String> = BTreeSet::new();
+    if let Some((lo, hi)) = bounds {
+        for n in lo..=hi {
+            for e in 0..3 {
+                if let Some(r) = through_pre_links(&format!("db/immutable/{}", trio_name(n, e))) {
+                    allowed_elsewhere.insert(r);
+                }
+            }
+        }
+    }
+    for (v, hs) in &vouched {
+        let logical = format!("db/{}", v);
+        if let (Some(r), Ok(c)) = (through_pre_links(&logical), std::fs::read(root.join(&logical))) {
+            if hs.contains(&sha256_hex(&c)) {
+                allowed_elsewhere.insert(r);
+            }
+        }
+    }
+    for m in ["db/clean", "db/protocolMagicId"] {
+        if let Some(r) = through_pre_links(m) {
+            if r != m {
+                allowed_elsewhere.insert(r);
+            }
+        }
+    }
     for (p, node) in post {
         if matches!(node, Node::Dir) || pre.get(p) == Some(node) {
+            continue;
+        }
+        if matches!(node, Node::File(_)) && !p.starts_with("db/immutable/") && !p.starts_with("db/ledger") && !p.starts_with("db/volatile") && p != "db/clean" && p != "db/protocolMagicId" && allowed_elsewhere.contains(p) {
             continue;
         }
         let abs = root.join(p);
@@ -483,13 +532,22 @@ fn spec(case: &Case, ok: bool, pre: &BTreeMap<String, Node>, post: &BTreeMap<Str
         if let Some(rel) = &rel {
             if let Some(hs) = vouched.get(rel) {
                 let read = std::fs::read(&abs).map(|c| sha256_hex(&c));
+                // the node itself may have been put there by an immutable archive (same path, same
+                // content): then it is judged as such below, not as an ancillary file
+                let from_imm = imm_entries.iter().any(|(c, k)| c.join("/") == *rel && match (k, node) {
+                    (EK::File(c), Node::File(h)) => sha256_hex(c) == *h,
+                    (EK::Symlink(t), Node::Link(l)) => norm_text(t) == *l,
+                    (EK::Hardlink(_), Node::File(_)) => true,
+                    _ => false,
+                });
                 match read {
                     Ok(h) if hs.contains(&h) => continue,
-                    other => {
+                    other if !from_imm => {
                         let class = if foreign_link_prefix(rel) { "foreign-entry" } else { "vouched-content-mismatch" };
                         fails.push((class.to_string(), format!("{} is listed in a verified manifest but what is read through the restored path is {:?} ({:?})", p, other.ok(), node)));
                         continue;
                     }
+                    _ => {}
                 }
             }
         }
@@ -961,13 +1019,23 @@ fn main() {
     let rt = tokio::runtime::Builder::new_multi_thread().worker_threads(2).enable_all().build().unwrap();
     let keys = Keys { genuine: ManifestSigner::create_deterministic_signer(), other: ManifestSigner::create_non_deterministic_signer() };
     let gvk = fake_keys::genesis_verification_key()[0];
+    // the client's own composition (RetryDownloader over HttpFileDownloader, 3 attempts) with the delay
+    // between attempts (5 s by default) set to zero
+    let downloader = || -> std::sync::Arc<dyn mithril_client::file_downloader::FileDownloader> {
+        let logger = slog::Logger::root(slog::Discard, slog::o!());
+        std::sync::Arc::new(RetryDownloader::new(
+            std::sync::Arc::new(HttpFileDownloader::new(FeedbackSender::new(&[]), logger).unwrap()),
+            FileDownloadRetryPolicy { attempts: 3, delay_between_attempts: std::time::Duration::from_secs(0) },
+        ))
+    };
     #[allow(deprecated)]
     let with_key = ClientBuilder::aggregator("http://127.0.0.1:9/", gvk)
         .set_ancillary_verification_key(keys.genuine.verification_key().to_json_hex().unwrap())
+        .with_http_file_downloader(downloader())
         .build()
         .unwrap();
     #[allow(deprecated)]
-    let without_key = ClientBuilder::aggregator("http://127.0.0.1:9/", gvk).build().unwrap();
+    let without_key = ClientBuilder::aggregator("http://127.0.0.1:9/", gvk).with_http_file_downloader(downloader()).build().unwrap();
     let ctx = Ctx { rt, with_key, without_key, scratch, keys };
     let keys = &ctx.keys;
 
